@@ -32,8 +32,11 @@ import (
 	"verif/harness/common"
 )
 
-const marginUs = 10000
-const defaultLifeUs = 4000000
+// the engine's constants, taken from the tree under test (the Lean model gets the same values
+// through harness/cmd/c20facts), so that the generator's "no two timers at one instant" guarantee
+// and its boundary cases follow the code
+var marginUs = int64(basic.TimeoutMargin / time.Microsecond)
+var defaultLifeUs = int64(basic.DefaultInterestLife / time.Microsecond)
 
 // ---------------------------------------------------------------- packets
 
@@ -193,7 +196,7 @@ func genHistory(g *common.Gen, r *common.Rand) {
 				for _, p := range pend {
 					if p.fire > t+1 {
 						cands = append(cands, p.fire-t+int64(r.Range(-1, 1)))
-						cands = append(cands, p.fire-marginUs-t+int64(r.Range(1, marginUs-1)))
+						cands = append(cands, p.fire-marginUs-t+int64(r.Range(1, int(marginUs)-1)))
 					}
 				}
 				life = int64(r.Range(2000, 80000))
@@ -307,7 +310,7 @@ func genHistory(g *common.Gen, r *common.Rand) {
 				}
 			}
 			life := "-"
-			lifeUs := int64(defaultLifeUs)
+			lifeUs := defaultLifeUs
 			if r.Chance(7, 10) {
 				ms := r.Range(1, 50)
 				life, lifeUs = strconv.Itoa(ms), int64(ms)*1000
